@@ -1,9 +1,25 @@
 (* What the names, attributes, calls and methods used by _client._sync_get_key / _async_get_key, _process_ept_map_result and
    _process_get_key_result MEAN, in terms of Model/Conversation.v (the model the C17 theorems are about) and the models it composes.
-   The connection object returned by create_rpc_connection / async_create_rpc_connection is a world object: its `bind` is
-   Handshake.bind_run against the peer script of that connection, its `request` is Conversation.rpc_request (frame and seal, one reply read
-   from the transport by the flavour's receive loop, _process_response).  The first connection (one argument: the endpoint mapper) is
-   anonymous, the second (port and credentials) carries the AuthenticationProvider that Conversation.v calls pv / legs.
+
+   This is a CHECKING world for the conversation.  It is given the transcript `tr` of the model's conversation
+   (snd (get_key_conversation ..): what the model sends) and the call's own (server, username, password, auth_protocol), and the
+   connection object carries its position (fresh / bound / request done).  The three operations that talk to the peer have a meaning ONLY
+   when their arguments are what the model sends at that point; otherwise the world does not know them (None => TypeError):
+     create_rpc_connection(server)                       -- one positional argument (port = its default), server = the call's server
+     create_rpc_connection(server, port, username=, password=, auth_protocol=)
+                                                         -- server, the three credentials = the call's own (what the AuthenticationProvider
+                                                            pv / legs of the model is built from), auth_protocol non-empty, and
+                                                            tr_port tr = Some port
+     rpc.bind(contexts=cs)                               -- on a fresh connection; cs = the context elements the model offers on this
+                                                            connection (epm_contexts resp. isd_key_contexts, field by field)
+     rpc.request(context_id, opnum, stub[, verification_trailer=vt])
+                                                         -- on a bound connection; the REQUEST this call puts on the wire AND what it hands
+                                                            to the security context's wrap (Conversation.rpc_request: 16-octet header,
+                                                            alloc_hint / context id / opnum, stub, verification trailer, paddings, security
+                                                            trailer; wrap arguments present iff the request is sealed) must be octet for
+                                                            octet tr_ept_request tr resp. tr_getkey_request tr
+   Then `bind` is Handshake.bind_run against the peer script of that connection and `request` is Conversation.rpc_request (one reply read
+   by the flavour's receive loop, _process_response).
    The other library functions called are their models (process_bind_result, process_ept_map_result, process_get_key_result,
    EptMapResult.unpack, GetKey.pack, GetKey.unpack_response, EptMap.pack, VerificationTrailer.pack); the module-level data are the
    structured values of Conversation.v (Proofs/C17Consts.v: they pack to the library's own octets).
@@ -17,8 +33,9 @@ Local Open Scope string_scope.
 Local Open Scope list_scope.
 Local Open Scope Z_scope.
 
-(* an RpcClient of either flavour: which of the two peers it talks to, and self._sign_header after bind() *)
-Record conn := { cn_flavour : flavour; cn_isd : bool; cn_sign : bool }.
+(* an RpcClient of either flavour: which of the two peers it talks to, self._sign_header after bind(), and the position in the
+   conversation on this connection: 0 fresh, 1 bound, 2 request done *)
+Record conn := { cn_flavour : flavour; cn_isd : bool; cn_sign : bool; cn_stage : Z }.
 
 Inductive obj :=
 | OCe (c : context_element)
@@ -47,25 +64,80 @@ Fixpoint ces_of (l : list (pv obj)) : option (list context_element) :=
   | _ => None
   end.
 
+Definition optsv (o : option (list Z)) : pv obj := match o with Some x => VS x | None => VN end.
+
+(* ---- decidable equalities used by the checks ---- *)
+Definition syntax_eqb (a b : syntax_id) : bool :=
+  bytes_eqb (sy_uuid a) (sy_uuid b) && (sy_version a =? sy_version b) && (sy_version_minor a =? sy_version_minor b).
+Fixpoint list_eqb {A} (eqb : A -> A -> bool) (a b : list A) : bool :=
+  match a, b with [], [] => true | x :: a', y :: b' => eqb x y && list_eqb eqb a' b' | _, _ => false end.
+Definition ce_eqb (a b : context_element) : bool :=
+  (ce_context_id a =? ce_context_id b) && syntax_eqb (ce_abstract_syntax a) (ce_abstract_syntax b)
+  && list_eqb syntax_eqb (ce_transfer_syntaxes a) (ce_transfer_syntaxes b).
+Definition wa_eqb (a b : wrap_args) : bool :=
+  bytes_eqb (wa_header a) (wa_header b) && bytes_eqb (wa_body a) (wa_body b) && bytes_eqb (wa_trailer a) (wa_trailer b)
+  && Bool.eqb (wa_sign a) (wa_sign b).
+Definition sent_eqb (a b : bytes * option wrap_args) : bool :=
+  bytes_eqb (fst a) (fst b) &&
+  match snd a, snd b with Some x, Some y => wa_eqb x y | None, None => true | _, _ => false end.
+Definition optstr_is (v : pv obj) (o : option (list Z)) : bool :=
+  match v, o with VS x, Some y => bytes_eqb x y | VN, None => true | _, _ => false end.
+
 Section WithPeer.
 Context (wrap : wrap_fn) (unwrap : unwrap_fn) (prov : provider) (legs : list leg) (dc : dc_script) (efuel : nat).
+(* the call's own connection parameters, and the transcript of the model's conversation *)
+Context (server : list Z) (username password : option (list Z)) (auth_protocol : list Z) (tr : transcript).
 
-(* rpc.bind(contexts=cs) *)
-Definition conn_bind (c : conn) (cs : list context_element) : res (pv obj * pv obj) :=
-  let '(r, s) := bind_run (cn_isd c) (if cn_isd c then legs else []) (if cn_isd c then ds_isd_srv dc else ds_epm_srv dc)
-                   (context_ids cs) in
-  match r with
-  | Ok results => Ok (VO (OAck results), VO (OConn {| cn_flavour := cn_flavour c; cn_isd := cn_isd c; cn_sign := sign s |}))
-  | Raise e => Raise e
+(* rpc.bind(contexts=cs): only on a fresh connection and only with the contexts the model offers on it *)
+Definition conn_bind (c : conn) (cs : list context_element) : option (res (pv obj * pv obj)) :=
+  if (cn_stage c =? 0) && list_eqb ce_eqb cs (if cn_isd c then isd_key_contexts else epm_contexts) then
+    Some (let '(r, s) := bind_run (cn_isd c) (if cn_isd c then legs else []) (if cn_isd c then ds_isd_srv dc else ds_epm_srv dc)
+                           (context_ids cs) in
+          match r with
+          | Ok results => Ok (VO (OAck results),
+                              VO (OConn {| cn_flavour := cn_flavour c; cn_isd := cn_isd c; cn_sign := sign s; cn_stage := 1 |}))
+          | Raise e => Raise e
+          end)
+  else None.
+
+(* rpc.request(context_id, opnum, stub, verification_trailer=vt): only on a bound connection and only if what it sends is what the
+   model's transcript has at this point *)
+Definition conn_request (c : conn) (ctx op : Z) (stub : bytes) (vt : option bytes) : option (res (pv obj * pv obj)) :=
+  if cn_stage c =? 1 then
+    match rpc_request (cn_flavour c) wrap unwrap (if cn_isd c then Some prov else None) (cn_sign c) ctx op stub vt
+            (if cn_isd c then ds_getkey_stream dc else ds_ept_stream dc) (ds_sched dc) with
+    | (Raise e, _) => Some (Raise e)              (* nothing goes out *)
+    | (Ok sent, resp) =>
+      match (if cn_isd c then tr_getkey_request tr else tr_ept_request tr) with
+      | Some expected =>
+        if sent_eqb sent expected then
+          Some (let* rsp := resp in
+                Ok (VO (OResp rsp),
+                    VO (OConn {| cn_flavour := cn_flavour c; cn_isd := cn_isd c; cn_sign := cn_sign c; cn_stage := 2 |})))
+        else None
+      | None => None
+      end
+    end
+  else None.
+
+Definition new_conn (f : flavour) (isd : bool) : pv obj :=
+  VO (OConn {| cn_flavour := f; cn_isd := isd; cn_sign := false; cn_stage := 0 |}).
+
+(* the endpoint-mapper connection: create_rpc_connection(server) *)
+Definition open_epm (f : flavour) (args : list (pv obj)) : option (res (pv obj)) :=
+  match args with
+  | [VS s] => if bytes_eqb s server then Some (Ok (new_conn f false)) else None
+  | _ => None
   end.
-
-(* rpc.request(context_id, opnum, stub, verification_trailer=vt) *)
-Definition conn_request (c : conn) (ctx op : Z) (stub : bytes) (vt : option bytes) : res (pv obj * pv obj) :=
-  let* rsp := snd (rpc_request (cn_flavour c) wrap unwrap (if cn_isd c then Some prov else None) (cn_sign c) ctx op stub vt
-                     (if cn_isd c then ds_getkey_stream dc else ds_ept_stream dc) (ds_sched dc)) in
-  Ok (VO (OResp rsp), VO (OConn c)).
-
-Definition new_conn (f : flavour) (isd : bool) : pv obj := VO (OConn {| cn_flavour := f; cn_isd := isd; cn_sign := false |}).
+(* the ISD_KEY connection: create_rpc_connection(server, port, username=.., password=.., auth_protocol=..) *)
+Definition open_isd (f : flavour) (args : list (pv obj)) : option (res (pv obj)) :=
+  match args with
+  | [VS s; VI port; u; p; VS (a :: pr)] =>
+    if bytes_eqb s server && optstr_is u username && optstr_is p password && bytes_eqb (a :: pr) auth_protocol
+       && match tr_port tr with Some port' => port =? port' | None => false end
+    then Some (Ok (new_conn f true)) else None
+  | _ => None
+  end.
 
 Definition online_ext : ext obj :=
   {| x_glob := fun x =>
@@ -95,15 +167,10 @@ Definition online_ext : ext obj :=
        end;
      x_setattr := fun _ _ _ => None;
      x_call := fun f args =>
-       if String.eqb f "create_rpc_connection" then
-         match args with [VS _] => Some (Ok (new_conn Sync false)) | _ => None end
-       else if String.eqb f "async_create_rpc_connection" then
-         match args with [VS _] => Some (Ok (new_conn Async false)) | _ => None end
-       else if String.eqb f "create_rpc_connection/username,password,auth_protocol" then
-         (* a non-empty auth_protocol: the connection gets an AuthenticationProvider (pv, legs) *)
-         match args with [VS _; VI _; _; _; VS (_ :: _)] => Some (Ok (new_conn Sync true)) | _ => None end
-       else if String.eqb f "async_create_rpc_connection/username,password,auth_protocol" then
-         match args with [VS _; VI _; _; _; VS (_ :: _)] => Some (Ok (new_conn Async true)) | _ => None end
+       if String.eqb f "create_rpc_connection" then open_epm Sync args
+       else if String.eqb f "async_create_rpc_connection" then open_epm Async args
+       else if String.eqb f "create_rpc_connection/username,password,auth_protocol" then open_isd Sync args
+       else if String.eqb f "async_create_rpc_connection/username,password,auth_protocol" then open_isd Async args
        else if String.eqb f "_process_bind_result" then
          match args with
          | [VL cs; VO (OAck rs); VI d] =>
@@ -152,14 +219,14 @@ Definition online_ext : ext obj :=
        | VO (OConn c) =>
          if String.eqb m "bind/contexts" then
            match args with
-           | [VL cs] => match ces_of cs with Some cs' => Some (conn_bind c cs') | None => None end
+           | [VL cs] => match ces_of cs with Some cs' => conn_bind c cs' | None => None end
            | _ => None
            end
          else if String.eqb m "request" then
-           match args with [VI ctx; VI op; VB stub] => Some (conn_request c ctx op stub None) | _ => None end
+           match args with [VI ctx; VI op; VB stub] => conn_request c ctx op stub None | _ => None end
          else if String.eqb m "request/verification_trailer" then
            match args with
-           | [VI ctx; VI op; VB stub; VO (OVt cmds)] => Some (conn_request c ctx op stub (Some (verification_trailer_pack cmds)))
+           | [VI ctx; VI op; VB stub; VO (OVt cmds)] => conn_request c ctx op stub (Some (verification_trailer_pack cmds))
            | _ => None
            end
          else None
